@@ -91,7 +91,7 @@ func init() {
 		Prepare:  func(e *Engine) { e.assumeKindInv = true },
 		Opts: func(e *Engine, key string) VerifyOpts {
 			// panic-freedom of the same functions is C04's claim (type assertions on constant values etc.)
-			return VerifyOpts{OnlyKinds: []string{"pre", "post", "frame", "inv-init", "inv-pres", "cover"}}
+			return VerifyOpts{OnlyKinds: []string{"pre", "post", "frame", "inv-init", "inv-pres", "cover", "call"}}
 		},
 		Assumptions: []string{
 			"scope: the pass-specific callbacks (processObject / processRef / processSchema / Process) of the transformations listed in functions_under_contract; each contract states the documented effect on the selected object/field/reference and that everything else is returned or left as it was (value equality plus write frames)",
@@ -108,7 +108,7 @@ func init() {
 		Prepare:  func(e *Engine) { e.assumeKindInv = true },
 		Funcs:    func(e *Engine) []string { return []string{"tools.StringInListEqualFold"} },
 		Opts: func(e *Engine, key string) VerifyOpts {
-			return VerifyOpts{OnlyKinds: []string{"pre", "post", "frame", "inv-init", "inv-pres", "cover"}}
+			return VerifyOpts{OnlyKinds: []string{"pre", "post", "frame", "inv-init", "inv-pres", "cover", "call"}}
 		},
 		Assumptions: []string{
 			"scope: rule contracts of the builder rules omit / rename, the option actions rename / omit / duplicate / add_comments / array_to_append / map_to_index / unfold_boolean and the by-name selectors: each states what comes back for a selected builder/option (including what is kept: arguments, assignments, target paths, defaults) and that non-applicable inputs come back unchanged",
@@ -123,7 +123,7 @@ func init() {
 		Level:    "proof",
 		Prepare:  func(e *Engine) { e.assumeKindInv = true },
 		Opts: func(e *Engine, key string) VerifyOpts {
-			return VerifyOpts{OnlyKinds: []string{"pre", "post", "frame", "inv-init", "inv-pres", "cover"}}
+			return VerifyOpts{OnlyKinds: []string{"pre", "post", "frame", "inv-init", "inv-pres", "cover", "call"}}
 		},
 		Extra: func(e *Engine, tier string) []*FuncResult { return []*FuncResult{e.flowResult()} },
 		Assumptions: []string{
@@ -139,7 +139,7 @@ func init() {
 		Level:    "proof",
 		Prepare:  func(e *Engine) { e.assumeKindInv = true },
 		Opts: func(e *Engine, key string) VerifyOpts {
-			return VerifyOpts{OnlyKinds: []string{"pre", "post", "frame", "inv-init", "inv-pres", "cover"}}
+			return VerifyOpts{OnlyKinds: []string{"pre", "post", "frame", "inv-init", "inv-pres", "cover", "call"}}
 		},
 		Extra: func(e *Engine, tier string) []*FuncResult { return []*FuncResult{e.refKindsResult()} },
 		Assumptions: []string{
@@ -155,7 +155,7 @@ func init() {
 		Level:   "proof",
 		Prepare: func(e *Engine) { e.assumeKindInv = true },
 		Opts: func(e *Engine, key string) VerifyOpts {
-			return VerifyOpts{OnlyKinds: []string{"pre", "post", "frame", "inv-init", "inv-pres", "cover"}}
+			return VerifyOpts{OnlyKinds: []string{"pre", "post", "frame", "inv-init", "inv-pres", "cover", "call"}}
 		},
 		Extra: func(e *Engine, tier string) []*FuncResult { return []*FuncResult{e.chainResult()} },
 		Assumptions: []string{
@@ -170,7 +170,7 @@ func init() {
 		Level:    "proof",
 		Prepare:  func(e *Engine) { e.assumeKindInv = true },
 		Opts: func(e *Engine, key string) VerifyOpts {
-			return VerifyOpts{OnlyKinds: []string{"pre", "post", "frame", "inv-init", "inv-pres", "cover"}}
+			return VerifyOpts{OnlyKinds: []string{"pre", "post", "frame", "inv-init", "inv-pres", "cover", "call"}}
 		},
 		Extra: func(e *Engine, tier string) []*FuncResult { return []*FuncResult{e.unwrapFlowResult()} },
 		Assumptions: []string{
